@@ -67,6 +67,11 @@ def rename_on_model():
     return Package("wfj", [m], [init], "plaintext"), {}
 
 
+def enum_name_not_converted():
+    m = Module("wfk/mod_a.py", "wfk.mod_a", enums=[Enum_("mode_kind_001", ["low_val_002", "M003"])], funcs=[Func("f004", [], ret=Ann("int"))])
+    return _pkg("wfk", [m]), {"nc": True}
+
+
 def result_warn_always():
     f = Func("same001", [Param("a", "pos", Ann("int"), doc="About a.", doc_type="int")], ret=Ann("int"), doc="Doc of same001.",
              result_docs=[("", "int", "Result of same001.")])
@@ -75,4 +80,4 @@ def result_warn_always():
 
 BUILDERS = {f.__name__: f for f in [enum_without_publicity_test, property_tuple_as_union, callable_attribute_untyped,
                                     none_result_suppresses_list, typevar_typed_attribute_dropped, private_class_as_type,
-                                    nc_snake_case_class_reference, result_warn_always, stale_class_generics, rename_on_model]}
+                                    nc_snake_case_class_reference, result_warn_always, stale_class_generics, rename_on_model, enum_name_not_converted]}
